@@ -105,6 +105,7 @@ def mk_interp(it):
 def run(chk):
     chk.section("getitem-setitem", lambda: access(chk))
     chk.section("unpacking", lambda: unpacking(chk))
+    chk.section("place-indices", lambda: place_indices(chk))
     chk.expected_min_obligations = 20
     chk.assumptions += [
         "HUGR op semantics (hugr std collections.array / borrow_arr, prelude): array.get returns Some(a[i]) iff i < n and the unchanged array; array.set returns Right((old, a[i:=v])) iff i < n; borrow_array.borrow(a, i) panics unless i < n and element i is present, yields the element and marks it lent; borrow_array.return panics unless i < n and element i is lent; pop_left/pop_right remove the first/last element; convert itousize reinterprets the 64-bit integer as unsigned",
@@ -378,6 +379,173 @@ try:
     out = {"violates": flat != want, "observed": flat, "required": want}
 except Exception as ex:
     out = {"violates": False, "error": repr(ex)[:300]}
+shutil.rmtree(d, ignore_errors=True)
+print(json.dumps(out))
+'''
+
+
+def place_indices(chk, require_order=False):
+    """ExprCompiler.visit_PlaceNode / bind_subscript_items and StmtCompiler._assign_place
+    (compiler/expr_compiler.py, stmt_compiler.py), real code on real Variable / SubscriptAccess /
+    FieldAccess places of depth 1..3 (with a struct field between two subscripts): however often a
+    place and its parents are visited within one dataflow graph — the read, the nested __getitem__
+    calls, the write-back after a borrowing call, an assignment through the place — every index
+    expression is compiled EXACTLY ONCE, innermost subscript first, and every access uses that one
+    wire.  (Compiling it again would re-run its side effects and address another element.)"""
+    EC = "guppylang_internals.compiler.expr_compiler"
+    SC = "guppylang_internals.compiler.stmt_compiler"
+    CORE = "guppylang_internals.checker.core"
+    e = mk_engine(chk)
+    for mod, q in ((EC, "ExprCompiler.visit_PlaceNode"), (EC, "ExprCompiler.bind_subscript_items"), (SC, "StmtCompiler._assign_place"), (CORE, "contains_subscript")):
+        try:
+            e.func_info(mod, q)
+        except KeyError:
+            pass          # a helper may be inlined again; the obligations below are on the visit methods
+    order = (lambda idx: idx) if require_order else sorted
+    what = "every-index-compiled-exactly-once-innermost-first" if require_order else "every-index-compiled-exactly-once"
+
+    def build(it, shape):
+        """shape: string over 's' (subscript) and 'f' (field), innermost first; returns (places outermost last, log)"""
+        V = it.lookup_global(e.module(CORE), "Variable")
+        SA = it.lookup_global(e.module(CORE), "SubscriptAccess")
+        FA = it.lookup_global(e.module(CORE), "FieldAccess")
+        IF = it.lookup_global(e.module("guppylang_internals.tys.ty"), "InputFlags")
+        nof = it.getattr(IF, "NoFlags")
+        root = SObj(V, {"name": "xs", "ty": "T", "defined_at": None, "flags": nof, "is_func_input": False})
+        cur, subs = root, []
+        for k, c in enumerate(shape):
+            if c == "s":
+                item = SObj(V, {"name": f"%idx{k}", "ty": "int", "defined_at": None, "flags": nof, "is_func_input": False})
+                sub = SObj(SA, {"parent": cur, "item": item, "ty": "T", "item_expr": ("INDEX-EXPR", k),
+                                "getitem_call": ("GETITEM", k), "setitem_call": SObj(ClassVal("SetitemCall", builtin=True), {"call": ("SETITEM", k), "value_var": ("VALUE-VAR", k)})})
+                subs.append(sub)
+                cur = sub
+            else:
+                cur = SObj(FA, {"parent": cur, "field": SObj(ClassVal("StructField", builtin=True), {"name": f"f{k}", "ty": "T"}), "exact_defined_at": None})
+        return root, subs, cur
+
+    def mk_self(it, subs, log):
+        ECc = it.lookup_global(e.module(EC), "ExprCompiler")
+        PN = it.lookup_global(e.module("guppylang_internals.nodes"), "PlaceNode")
+        dfg = {}
+        self_ = SObj(ECc, {"dfg": dfg, "ctx": None})
+
+        def visit(x):
+            if isinstance(x, tuple) and x[0] == "INDEX-EXPR":
+                log.append(("index", x[1]))
+                return ("idx-wire", x[1], len([1 for y in log if y == ("index", x[1])]))
+            if isinstance(x, tuple) and x[0] in ("GETITEM", "SETITEM"):
+                k = x[1]
+                # the synthesized call takes the parent place and the index temporary as arguments
+                parent = subs[[i for i, s_ in enumerate(subs) if s_.fields["getitem_call"] == ("GETITEM", k)][0]].fields["parent"]
+                from pyvc import SObj as _S
+                if any(True for _ in [0]) and it.call(it.lookup_global(e.module(CORE), "contains_subscript"), [parent], {}) is not None:
+                    it.call_method(self_, "visit_PlaceNode", [_S(PN, {"place": parent})])
+                item = subs[[i for i, s_ in enumerate(subs) if s_.fields["getitem_call"] == ("GETITEM", k)][0]].fields["item"]
+                log.append((x[0].lower(), k, dfg.get(it.hashable(item)) if hasattr(it, "hashable") else None))
+                return (x[0].lower() + "-wire", k)
+            raise AssertionError(f"unexpected visit of {x!r}")
+        self_.fields["visit"] = Builtin("visit", visit)
+        self_.fields["compile"] = Builtin("compile", lambda x, d: visit(x))
+        return self_, PN, dfg
+
+    for shape in ("s", "ss", "sss", "sfs", "fs", "sf"):
+        nsub = shape.count("s")
+        for visits in (1, 2, 3):
+            def t(it, shape=shape, visits=visits):
+                root, subs, outer = build(it, shape)
+                log = []
+                self_, PN, dfg = mk_self(it, subs, log)
+                dfg_obj = it.exec_snippet(e.module(EC), DFG_SNIPPET)["dfg"]
+                self_.fields["dfg"] = dfg_obj
+                for _ in range(visits):
+                    it.call_method(self_, "visit_PlaceNode", [SObj(PN, {"place": outer})])
+                return log, [next((v for kk, v in dfg_obj.fields["items"] if kk is s_.fields["item"]), None) for s_ in subs]
+            paths = e.explore(t)
+
+            def post(p, shape=shape, nsub=nsub):
+                if p.kind != "return":
+                    return z3.BoolVal(False)
+                log, wires = p.value
+                idx = [x[1] for x in log if x[0] == "index"]
+                ks = [k for k, c in enumerate(shape) if c == "s"]
+                return z3.BoolVal(order(idx) == ks and wires == [("idx-wire", k, 1) for k in ks])
+            chk.prove_paths(f"ExprCompiler.visit_PlaceNode[place={shape},visits={visits}]:{what}/\\the-temporaries-keep-that-wire", paths, post,
+                            func=f"{EC}:ExprCompiler.visit_PlaceNode", replay=lambda m_: {"script": REPLAY_NESTED_INDEX, "input": {}})
+
+        # assignment through the place after it was read (same dataflow graph)
+        def t_asg(it, shape=shape):
+            root, subs, outer = build(it, shape)
+            log = []
+            self_, PN, dfg = mk_self(it, subs, log)
+            dfg_obj = it.exec_snippet(e.module(EC), DFG_SNIPPET)["dfg"]
+            self_.fields["dfg"] = dfg_obj
+            SCc = it.lookup_global(e.module(SC), "StmtCompiler")
+            sc = SObj(SCc, {"dfg": dfg_obj, "expr_compiler": self_, "ctx": None})
+            it.call_method(self_, "visit_PlaceNode", [SObj(PN, {"place": outer})])
+            it.call_method(sc, "_assign_place", [SObj(PN, {"place": outer}), "NEW-VALUE"])
+            return log, [next((v for kk, v in dfg_obj.fields["items"] if kk is s_.fields["item"]), None) for s_ in subs]
+        chk.prove_paths(f"StmtCompiler._assign_place[place={shape},after-a-read]:no-index-is-compiled-again", e.explore(t_asg),
+                        lambda p, shape=shape: z3.BoolVal(p.kind == "return" and order([x[1] for x in p.value[0] if x[0] == "index"]) == [k for k, c in enumerate(shape) if c == "s"]
+                                                          and p.value[1] == [("idx-wire", k, 1) for k, c in enumerate(shape) if c == "s"]),
+                        func=f"{SC}:StmtCompiler._assign_place", replay=lambda m_: {"script": REPLAY_NESTED_INDEX, "input": {}})
+    chk.use_engine(e)
+
+
+DFG_SNIPPET = '''
+class _DFG:
+    """stand-in for DFContainer: a place -> wire map (the places of one scenario are distinct objects)"""
+    def __init__(self):
+        self.items = []
+    def _find(self, k):
+        for i, kv in enumerate(self.items):
+            if kv[0] is k:
+                return i
+        return -1
+    def __contains__(self, k):
+        return self._find(k) >= 0
+    def __getitem__(self, k):
+        i = self._find(k)
+        return self.items[i][1] if i >= 0 else ("wire-of", k)
+    def __setitem__(self, k, v):
+        i = self._find(k)
+        if i >= 0:
+            self.items[i] = (k, v)
+        else:
+            self.items.append((k, v))
+dfg = _DFG()
+'''
+
+REPLAY_NESTED_INDEX = r'''
+import tempfile, importlib.util, os, sys, shutil
+src = """from guppylang import guppy
+from guppylang.std.builtins import array, result
+@guppy
+def nxt(c: array[int, 1]) -> int:
+    c[0] = c[0] + 1
+    return 0
+@guppy
+def bump(x: array[int, 2]) -> None:
+    x[0] = x[0] + 1
+@guppy
+def main() -> None:
+    c = array(0)
+    t = array(array(array(1, 2), array(3, 4)), array(array(5, 6), array(7, 8)))
+    bump(t[nxt(c)][1])
+    t[nxt(c)][0][1] = 9
+    result("calls", c[0])
+    result("a", t[0][1][0])
+    result("b", t[0][0][1])
+"""
+d = tempfile.mkdtemp(dir=os.environ.get("TMPDIR", "/var/tmp")); fn = os.path.join(d, "replay_c19n.py"); open(fn, "w").write(src)
+spec = importlib.util.spec_from_file_location("replay_c19n", fn); m = importlib.util.module_from_spec(spec); sys.modules["replay_c19n"] = m
+try:
+    spec.loader.exec_module(m)
+    got = [list(x) for x in list(m.main.emulator(n_qubits=1).run().results)[0].entries]
+    want = [["calls", 2], ["a", 4], ["b", 9]]
+    out = {"violates": got != want, "observed": got, "required": want}
+except Exception as ex:
+    out = {"violates": "anic" in str(ex), "error": repr(ex)[:300]}
 shutil.rmtree(d, ignore_errors=True)
 print(json.dumps(out))
 '''
